@@ -98,6 +98,8 @@ def request_cases(draw):
 def parts(tier):
     return [Part('sched', sched_cases(), quick=150, thorough=900),
             Part('exec', exec_cases(), quick=180, thorough=1500),
+            Part('exec_sweep', enum=lambda tier: (c for c in c07.sweep_cases(tier)
+                                                   if any(m[0] == 'cancel' for m in c['moves']))),
             Part('later', later_cases(), quick=250, thorough=2000),
             Part('request', request_cases(), quick=100, thorough=500)]
 
@@ -105,7 +107,7 @@ def parts(tier):
 def normalise(case):
     if case.get('kind') == 'sched':
         return schedgen.normalise(case)
-    if case.get('kind') == 'exec':
+    if case.get('kind') in ('exec', 'sweep'):
         return c07.normalise(case)
     return case
 
@@ -162,12 +164,25 @@ def run_exec(case, res):
         if p == PID and (sig, msg) not in seen:
             seen.add((sig, msg))
             res.fail('exec:' + sig, msg)
+    # named tasks: freed exactly once, handed on exactly once
+    for u in sim.order:
+        if u in sim.cancel_req and u in sim.accepted:
+            e = sim.ev[u]
+            if e['unsched'] != 1:
+                res.fail('exec:named_task_released_%s' % ('twice' if e['unsched'] > 1 else 'never'),
+                         '%s: %s' % (u, e['seq']))
+            if e['pushed'] + e['failed'] > 1:
+                res.fail('exec:named_task_handed_on_twice', '%s: %s' % (u, e['seq']))
     # named + running => process killed through the launcher
     for u, phase in sim.must_cancel.items():
         if phase == 'running' and u not in sim.rm.launcher.cancelled:
             pr = sim.proc_of.get(u)
             if pr is not None and not pr.killed:
                 res.fail('exec:named_running_task_not_killed', u)
+    if case.get('kind') == 'sweep':
+        res.nontrivial = True
+        res.label('exec:sweep')
+        return
     # differential: same case without the cancel requests
     base = dict(case)
     base['moves'] = [m for m in case['moves'] if m[0] != 'cancel']
@@ -314,7 +329,7 @@ def run_case(case):
     k = case.get('kind')
     if k == 'sched':
         run_sched(case, res)
-    elif k == 'exec':
+    elif k in ('exec', 'sweep'):
         run_exec(case, res)
     elif k == 'later':
         run_later(case, res)
